@@ -199,6 +199,35 @@ theorem C16_content (sides : List Nat) (fuel : Nat) (s : Nat) (m : Msg) (t : Nat
         have ⟨a, b, c⟩ := outFwd_origin s m pm ho
         exact ⟨c, a, b⟩
 
+/-- the class default of the `fwd` parameter of `advance`, read from utils/component.py -/
+def fwdDefault (cls : String) : Bool :=
+  match Gen.advanceFwdDefaults.find? (fun e => e.1 = cls) with
+  | some e => e.2
+  | none   => false
+
+/-- **state advances**: an agent-side advance without an explicit `fwd` argument reaches the local
+    subscribers once and every other connected side exactly once; a client-side advance without the
+    argument stays on the client; an explicit argument decides either way, on either side -/
+theorem C16_advance (sides : List Nat) (hn : sides.Nodup) (fuel : Nat) (s : Nat) (hs : s ∈ sides)
+    (cls : String) (fwdArg : Option Bool) (body : Nat) :
+    deliveries (localPub sides (fuel + 2) s (advanceMsg (fwdDefault cls) fwdArg body)) s = 1
+    ∧ ((fwdArg = some true ∨ (fwdArg = none ∧ fwdDefault cls = true)) →
+         ∀ t ∈ sides, t ≠ s → deliveries (localPub sides (fuel + 2) s (advanceMsg (fwdDefault cls) fwdArg body)) t = 1)
+    ∧ ((fwdArg = some false ∨ (fwdArg = none ∧ fwdDefault cls = false)) →
+         ∀ t, t ≠ s → deliveries (localPub sides (fuel + 2) s (advanceMsg (fwdDefault cls) fwdArg body)) t = 0) := by
+  have h := C16 sides hn fuel s hs (advanceMsg (fwdDefault cls) fwdArg body)
+  refine ⟨h.1, fun hf => h.2.1 ⟨?_, Or.inl rfl⟩, fun hf => h.2.2.1 (fun hh => ?_)⟩
+  · rcases hf with hf | ⟨hf, hd⟩
+    · subst hf; rfl
+    · subst hf; simp [advanceMsg, hd]
+  · have h1 := hh.1
+    rcases hf with hf | ⟨hf, hd⟩
+    · subst hf; simp [advanceMsg] at h1
+    · subst hf; simp [advanceMsg, hd] at h1
+
+theorem C16_advance_agent_default : fwdDefault "AgentComponent" = true := by decide
+theorem C16_advance_client_default : fwdDefault "ClientComponent" = false := by decide
+
 /-! non-vacuity (tests) -/
 example : localPub [0, 1, 2] 5 1 ⟨none, some true, 7⟩
     = [(1, ⟨none, some true, 7⟩), (0, ⟨some 1, some false, 7⟩), (2, ⟨some 1, some false, 7⟩)] := by decide
